@@ -199,8 +199,7 @@ class TruncationMonitor(Monitor):
         full = _datas(res if ev.name not in INPLACE else ev.args[0])
         if full is None:
             self.ctx.skip('no-utpm-result:' + ev.name); return
-        if not all(np.all(np.isfinite(a)) for a in full):
-            self.ctx.skip('nonfinite-result'); return
+        full_finite = all(np.all(np.isfinite(a)) for a in full)
         f = getattr(ev.owner, ev.name)
         orders = range(1, D) if (self.all_orders or D <= 6) else sorted({1, D - 1, 1 + (D * 7919) % (D - 1)})
         for Dp in orders:
@@ -220,6 +219,13 @@ class TruncationMonitor(Monitor):
                 if gaps.size and np.min(gaps) < 1e-6:
                     pairs = [pairs[0]] if ev.name == 'eigh' else [pairs[1]]
                     self.ctx.skip('eigenvectors-not-unique (repeated eigenvalues)')
+            if not full_finite:
+                # a non-finite result (0/0, log 0, ...) is only comparable in its pattern: the truncated run must be
+                # non-finite in exactly the same low-order entries
+                for a, b in pairs:
+                    if a[:Dp].shape != b.shape or not np.array_equal(np.isfinite(a[:Dp]), np.isfinite(b)):
+                        self.ctx.violation('truncation:%s:nonfinite-pattern' % ev.name, {'call': ev.name, 'D': D, 'Dp': Dp}); return
+                continue
             for a, b in pairs:
                 if a[:Dp].shape != b.shape:
                     self.ctx.violation('truncation:%s:shape' % ev.name, {'call': ev.name, 'D': D, 'Dp': Dp, 'full': a.shape, 'truncated': b.shape}); return
@@ -229,6 +235,8 @@ class TruncationMonitor(Monitor):
                     self.ctx.violation('truncation:%s:value' % ev.name, {'call': ev.name, 'D': D, 'Dp': Dp, 'first_bad_order': int(np.argmax(err / s)),
                                                                         'err_over_scale': float(np.max(err / s))}); return
                 self.ctx.noise['truncation'] = max(self.ctx.noise.get('truncation', 0.0), float(np.max(err / s)))
+        if not full_finite:
+            self.ctx.skip('nonfinite-result (pattern compared)'); return
         self.ctx.ok('truncation:' + ev.name, ('trunc', ev.name, D, tuple(c.shape[2:] for (_, _, c) in ua)))
 
 
